@@ -108,6 +108,7 @@ func (s *QSeq) Clone() seq.Rower {
 	for i, s := range s.Seq {
 		c.Seq[i] = append([]alphabet.QLetter(nil), s...)
 	}
+	c.SubAnnotations = append([]seq.Annotation(nil), s.SubAnnotations...)
 
 	return &c
 }
